@@ -135,7 +135,9 @@ def generate(name, maxk, stride=1):
     # origins carry different hygiene contexts; only resolution tells them apart (rules resolve, they do not spell).
     import re
     for k, (i, key, item) in enumerate(points(maxk)):
-        if any(o not in ("?Send",) for o in key if o in FN_OPTS + TRAIT_OPTS + ["unimock = false"]):
+        # (mock_api is kept: unimock derives its un-mock arm from the trait declaration's parameter names, which must
+        #  agree in hygiene with the arguments entrait lists in `unmock_with`)
+        if any(o not in ("?Send", "mock_api = TMock") for o in key if o in FN_OPTS + TRAIT_OPTS + ["unimock = false"]):
             continue
         if "async_trait" in key:
             continue  # async_trait's own expansion names `self` from its call site
@@ -189,6 +191,8 @@ def load_cross(report, config, tier):
             props.add("C12")
         if "concrete" in kt:
             props.add("C05")
+        if "mock_api = TMock" in kt:
+            props.add("C11")
         msg = "combination %s does not expand to compiling code [%s]: %s %s" % (key, config, dg.get("code") or "", dg["message"][:150])
         if report.prop in props:
             report.add("W-CROSS", "cross %s [%s] compile" % (key, config), msg)
